@@ -36,6 +36,8 @@ struct Value {
     opcodetype opcode;
     std::vector<uint8_t> data;
     std::string str;
+    // every [bracket level is one level of recursion in the parser below
+    static constexpr size_t MAX_BRACKET_DEPTH = 100;
     static std::vector<Value> parse_args(const std::vector<const char*> args) {
         std::vector<Value> result;
         std::string accum = "";
@@ -68,8 +70,7 @@ struct Value {
     static std::vector<Value> parse_args(const char* args_string, size_t args_len = 0) {
         if (args_len == 0) args_len = strlen(args_string);
         std::vector<const char*> args;
-        char* args_ptr[args_len];
-        size_t arg_idx = 0;
+        std::vector<char*> args_ptr;
         size_t start = 0;
         for (size_t i = 0; i <= args_len; i++) {
             char ch = args_string[i - (i == args_len)];
@@ -79,6 +80,10 @@ struct Value {
                 while ((++i) <= args_len && depth > 0) {
                     ch = args_string[i];
                     depth += (ch == '[') - (ch == ']');
+                    if (depth > MAX_BRACKET_DEPTH) {
+                        fprintf(stderr, "parse error, [brackets nested more than %zu deep\n", MAX_BRACKET_DEPTH);
+                        exit(1);
+                    }
                 }
                 if (depth > 0) {
                     fprintf(stderr, "parse error, unclosed [bracket (expected: ']') in \"%s\"\n", args_string);
@@ -89,9 +94,8 @@ struct Value {
                 if (start == i) {
                     start++;
                 } else {
-                    args_ptr[arg_idx] = strndup(&args_string[start], i - start);
-                    args.push_back(args_ptr[arg_idx]);
-                    arg_idx++;
+                    args_ptr.push_back(strndup(&args_string[start], i - start));
+                    args.push_back(args_ptr.back());
                     start = i + 1;
                 }
                 if (ch == '#') {
@@ -104,7 +108,7 @@ struct Value {
             }
         }
         std::vector<Value> result = parse_args(args);
-        for (size_t i = 0; i < arg_idx; i++) free(args_ptr[i]);
+        for (char* arg : args_ptr) free(arg);
         return result;
     }
 
